@@ -297,6 +297,10 @@ pub enum StructFault {
     /// `null` node: replace by a copy of a non-null sibling (None → Some); the sibling is the
     /// first non-null value of the same parent object / array, or `[]` if there is none
     FillNull(Path),
+    /// `null` member of an object: replace by a copy of the named non-null sibling member (one
+    /// fault per sibling other than the one `FillNull` takes): an absent optional part filled with
+    /// data of every shape the neighbouring parts have (e.g. `trace_next` ← `trace_local`)
+    FillNullFrom(Path, String),
     /// structural integer at path ← value (−1, +1, 0, 63)
     IntSet(Path, u64),
 }
@@ -309,6 +313,7 @@ impl StructFault {
             | StructFault::Empty(p)
             | StructFault::SetNull(p)
             | StructFault::FillNull(p)
+            | StructFault::FillNullFrom(p, _)
             | StructFault::IntSet(p, _) => p,
         }
     }
@@ -319,6 +324,7 @@ impl StructFault {
             StructFault::Empty(_) => "empty".into(),
             StructFault::SetNull(_) => "set_null".into(),
             StructFault::FillNull(_) => "fill_null".into(),
+            StructFault::FillNullFrom(_, k) => format!("fill_null_from={k}"),
             StructFault::IntSet(_, v) => format!("int={v}"),
         }
     }
@@ -363,9 +369,17 @@ pub fn struct_faults(tree: &Value, include_null_all: bool) -> Vec<StructFault> {
                 }
             }
             Value::Object(m) => {
+                let first_non_null = m.iter().find(|(_, x)| !x.is_null()).map(|(k, _)| k.clone());
                 for (k, x) in m.iter() {
                     path.push(Seg::Key(k.clone()));
                     rec(x, path, all, true, out);
+                    if x.is_null() {
+                        for (k2, x2) in m.iter() {
+                            if !x2.is_null() && Some(k2) != first_non_null.as_ref() {
+                                out.push(StructFault::FillNullFrom(path.clone(), k2.clone()));
+                            }
+                        }
+                    }
                     path.pop();
                 }
             }
@@ -424,6 +438,14 @@ pub fn apply_struct_fault(tree: &Value, f: &StructFault) -> Option<Value> {
             }
             .unwrap_or_else(|| Value::Array(vec![]));
             let _ = last;
+            *get_mut(&mut t, p)? = template;
+        }
+        StructFault::FillNullFrom(p, k) => {
+            let (_, parent_path) = p.split_last()?;
+            let template = get(tree, parent_path)?.as_object()?.get(k)?.clone();
+            if template.is_null() {
+                return None;
+            }
             *get_mut(&mut t, p)? = template;
         }
         StructFault::IntSet(p, v) => {
